@@ -6,6 +6,27 @@ ALL = ["C%02d" % i for i in range(1, 21)]
 
 # id -> (technique, level text, level note, design ref)
 CHECKS = {
+ "C01": ("bounded exhaustive enumeration of documents (all trees <=N nodes over the tag grammar) and of a reflect-built Go type/value universe on the real codec, judged by an independent NBT reader and an independent implementation of the documented mapping",
+         "Decode: every tree x 5 targets x 4 formats x 3 trailing streams x 2 source kinds must yield the format's values, the root name, and leave exactly the trailing bytes unread. Encode: every (type,value) x {file,network} x {value,pointer}: accepted values must produce one well-formed document equal to the documented mapping. Exhaustive within the stated node/depth bounds.",
+         "Trusted: ref/refnbt, checks/nbtgo.ToTree (self-tested). Unspecified (executed, not judged): duplicate keys, nil pointers/interfaces, []bool, slices of interfaces/pointers, Go int/uint. Hand-written catalogue for embedding rules.",
+         "DESIGN.md §2 C01"),
+ "C02": ("bounded exhaustive enumeration of (type,value) pairs and of carrier placements on the real encoder+decoder with an independent deep-equality / snapshot oracle",
+         "Every value of the reflect-built universe x {file,network} x {value,pointer} is encoded (no panic, input unmodified by snapshot comparison, no error for documented kinds), decoded into a fresh variable and compared (NaN by bits, nil==empty). Every document <=N nodes is decoded into RawMessage / dynbt.Value at root, struct field, value field, map value and list element and must re-encode byte for byte.",
+         "Trusted: checks/nbtgo (Snapshot, equality). Interface-typed slots are compared at the NBT level; nil pointers/interfaces, ,list misuse, slices of pointers to scalars are outside the documented universe (counted as unspecified).",
+         "DESIGN.md §2 C02"),
+ "C16": ("bounded exhaustive enumeration of RCON frames, frame concatenations, declared lengths, password pairs and command/response/adversary scripts on the real RCON code (in-memory conn + loopback TCP) against a reference frame layout and session model",
+         "All (id,type,payload-class) frames, all concatenations <=4 frames over a 6-frame alphabet + a 20-frame chain under 3 fragmentations, all declared lengths around both bounds, all 36 ordered password pairs (real DialRCON vs ListenRCON/AcceptLogin), all command/response scripts <=3 steps against the real server side and against a scripted adversary answering {right id,id+1,-1,0}x{type 0,2}. Oracle: refrcon layout, self-delimitation, login iff passwords equal, Resp only under the id in use.",
+         "Trusted: ref/refrcon (self-tested on the Valve example packet). Loopback TCP sessions run outside any scheduler with a 20 s deadline that can only produce a harness error. Responses under the right id with type != 0 etc. are unspecified.",
+         "DESIGN.md §2 C16"),
+ "C17": ("deviation-bounded exhaustive enumeration (engine.Explore, every non-default field is a deviation) of text components on the real JSON/NBT codecs and renderers, judged by refnbt and an independent component model",
+         "All components with <=5 departures from the empty component over the DESIGN grammar (depth <=3), the 2^5 style-flag product, three input shapes in both forms, chat.Type headers with/without target: JSON and NBT round trips are identity, Message.WriteTo is one well-formed network-format compound with the expected keys, rendering never panics, ClearString leaves no formatting code, arguments substituted in order.",
+         "Trusted: ref/refnbt and the check's own component model/reader (self-tested on hand vectors). Rendered text for unknown keys / argument-count mismatches, returned byte counts and JSON key sets are unspecified.",
+         "DESIGN.md §2 C17"),
+ "C18": ("exhaustive enumeration where finite (all byte strings <=3 for twosComplement, all 65,792 one/two-byte names) and structured digest enumeration through a sha1 seam, against math/big and hand-rolled MD5 name-UUID references; finite forgery family for signatures",
+         "Offline UUID over named + all 1- and 2-byte names; both twosComplement copies on all 16.8M strings <=3 bytes; both authDigest copies on ~5M enumerated digests (every sign/leading-zero/trailing-zero/carry shape) via an overlay seam replacing sha1.New, equal to each other and to BigInteger(d).toString(16); binding pass with real SHA-1; 386 forged signatures/keys (incl. a valid signature by a different deterministic RSA key) must all be refused.",
+         "Trusted: ref/refjava (self-tested on the wiki.vg digests). Unforgeability is decided only for the finite forgery family. The all-zero digest is unjudged. Seams are overlay-generated from the current /repo files.",
+         "DESIGN.md §2 C18"),
+
  "C03": ("bounded exhaustive input enumeration on the real decoders (all byte strings <=L over a tag/length alphabet + all systematic mutants of all documents <=N nodes) judged by an independent NBT reader",
          "Every byte string up to the bound and every truncation/substitution/length-or-tag overwrite of every generated document is executed on every NBT decoding entry point in both formats; a panic, a 20 s non-terminating call, or a nil error on a strict prefix / negative length / unknown tag id is a violation. Exhaustive within the stated alphabets and sizes, nothing sampled.",
          "Trusted: ref/refnbt (self-tested against hand vectors); inputs declaring lengths > 65536 are skipped (over-allocation guard); sizes beyond the bounds are not covered.",
